@@ -143,7 +143,7 @@ _push('C18', 'Lean 4 proof (invariant: no driver function turns a failed operati
       'be 1, no panic, applied-patches untouched, the message must name the file.', ' Faults are injected at operation granularity.')
 
 _push('C06', 'Lean 4 proof (all-schedules invariant of the apply-phase transition system; disjoint name sets => file patches of different workers commute on the abstract tree; save phase: ownership invariant over every interleaving of the workers\' file-system operations) + forced-schedule correspondence via the baton hook',
-      'Theorems C06_apply_phase (every schedule), C06_save_phase (every schedule of the workers\' save operations: each worker issues exactly the operations of its solo run and the resulting file system equals, up to inode numbers, the one-worker-after-the-other run of the model\'s save functions), C06_error_index (an error a worker runs into counts exactly when it lies in the patch the push stops at, under every schedule), C06_queues_sorted, C06_disjoint, C06_frame, C06_local, C06_commute. The real parallel driver is run '
+      'Theorems C06_apply_phase (every schedule), C06_save_phase (every schedule of the workers\' save operations: each worker issues exactly the operations of its solo run and the resulting file system equals, up to inode numbers, the one-worker-after-the-other run of the model\'s save functions), C06_error_index (an error a worker runs into counts exactly when it lies in the patch the push stops at, under every schedule), C06_apply_eq_sequential and C06_parallel_eq_sequential_tree (the model of the whole parallel driver, under every pair of schedules, against the sequential driver: same error/no-error outcome, same k, same reject files, and the same file on disk under every non-reject, non-.pc name), C06_queues_sorted, C06_disjoint, C06_frame, C06_local, C06_commute. The real parallel driver is run '
       'under forced random schedules (scheduling points around the shared atomic and before every file-system write) and with free-running '
       'threads for 2-16 workers; tree, .pc, rejects and exit status must equal the single-threaded specification.',
       ' C06_save_phase assumes that no path written by one worker is a prefix of a path (or parent directory) written by another (decidable; false only when one patch turns a directory into a file or back, known finding dir-file-swap) and that every worker\'s save succeeds alone; the hand-over from the apply phase to the save phase (roll back what ran ahead) and the main thread\'s clean-up are sequential code covered by the C05 theorems; memory-model effects below SC atomics and rayon itself are outside the model.')
